@@ -490,6 +490,32 @@ AREAS = [
              emits={'Resume': ('$events', 'XauResume', []), 'Pause': ('$events', 'XauPause', [])},
              skip=[r'^Log\(', r'^ObjectLock ', r'^SetResumeCalled\(false\)$', r'^SetPauseCalled\(false\)$', r'^ASSERT\(GetResumeCalled\(\)\)$', r'^ASSERT\(GetPauseCalled\(\)\)$']),
     ]),
+    # ---------------------------------------------------------------------------------------- round 2: C13/C11 message origin, relay target zones
+    dict(area='zone2', requires=['Icv.Src.XlPrelude', 'Icv.Msg.MzModel', 'Icv.Facts.Facts_fn_zone'], items=[
+        # JsonRpcConnection::MessageHandler: the "ignore old messages" filter and the construction of the origin (FromZone)
+        dict(name='jsonrpc_message_origin', func='JsonRpcConnection::MessageHandler', file='lib/remote/jsonrpcconnection.cpp', props=['C13', 'C11'],
+             region=(r'if\s*\(\s*m_Endpoint\s*&&\s*message->Contains\("ts"\)\s*\)', r'Value\s+vmethod\s*;'), region_exit=True, outputs=[],
+             inputs=[('has_ep', 'bool'), ('has_ts', 'bool'), ('ts', 'Z'), ('rlp0', 'Z'), ('ep_zone', 'option nat'), ('l', 'nat'), ('claim', 'option nat')],
+             ret='void', rcoq='bool * Z * option nat', dummy='(false, 0, None)',
+             types={'zptr': dict(coq='option nat', truth='xz_some', eqb='xz_eqb')}, ctypes={'Zone::Ptr': 'zptr'},
+             state=[('$rlp', 'rlp0', 'Z'), ('$fz', '(@None nat)', 'zptr')],
+             getters={'m_Endpoint->GetRemoteLogPosition()': '$rlp'}, setters={'m_Endpoint->SetRemoteLogPosition': '$rlp'},
+             assigns={'[new MessageOrigin]->FromZone': '$fz'},
+             skip=[r'^Log\(', r'^\[new MessageOrigin\]->FromClient=this$'],
+             bind={'m_Endpoint': ('has_ep', 'ptr'), 'message->Contains("ts")': Bb('has_ts'), 'message->Get("ts")': Zb('ts'),
+                   'm_Endpoint->GetZone()': ('ep_zone', 'zptr'), 'Zone::GetLocalZone()': ('Some l', 'zptr'),
+                   'Zone::GetByName(message->Get("originZone"))': ('claim', 'zptr')}),
+        # ApiListener::RelayMessageOne: which zones are candidates at all (early return; the local zone and its children for a global zone)
+        dict(name='relay_target_zones', func='ApiListener::RelayMessageOne', file='lib/remote/apilistener.cpp', props=['C13', 'C11'],
+             region=(r'if\s*\(\s*!targetZone->GetGlobal\(\)\s*&&', r'bool\s+needsReplay\s*='), region_exit=True, exit_ignore_value=True, outputs=['allTargetZones'],
+             inputs=[('t', 'mz_tree'), ('l', 'nat'), ('a', 'nat'), ('zones', 'list (option nat)')],
+             ret='void', rcoq='bool * list (option nat)', dummy='(false, nil)',
+             types={'zptr': dict(coq='option nat', truth='xz_some', eqb='xz_eqb'), 'zlist': dict(coq='list (option nat)', elem='zptr', default='None')},
+             ctypes={'Zone::Ptr': 'zptr', 'std::set<>': 'zlist'},
+             params={'targetZone': ('Some a', 'zptr')}, locals={'localZone': ('(Some l)', 'zptr'), 'allTargetZones': ('(@nil (option nat))', 'zlist')},     # the set is empty when the region is left before its declaration
+             lists={'ConfigType::GetObjectsByType<>()': ('zones', 'zptr')}, appends={'allTargetZones.insert': 'allTargetZones'},
+             fns={'zptr->GetGlobal': ('xz_global t', ['zptr'], 'bool'), 'zptr->GetParent': ('xz_parent t', ['zptr'], 'zptr')}),
+    ]),
     # ---------------------------------------------------------------------------------------- C18 (tracked, outside the subset today)
     dict(area='perm', requires=['Icv.Src.XlPrelude'], items=[
         # builds Expression objects with `new`, writes through an out-parameter: not translatable; listed so that the evidence
